@@ -468,15 +468,44 @@ fn hook_seam_inner(site: u32, slot: usize) {
     }
 }
 
+/// The CPU-feature query inside `is_available()` is a seam as well: it is
+/// where a first call spends its time (CPUID, std's feature cache), so the OS
+/// may well preempt there -- in the middle of `detect`, before it has decided,
+/// and in the middle of a finder's construction.
+pub const SITE_CPU: u32 = 5;
+
 pub fn hook_cpu_hidden(feature: u32) -> bool {
-    match world() {
-        None => false,
-        Some(w) => match feature {
-            FEATURE_AVX2 => w.avx2_hidden() || w.sse2_hidden(),
-            FEATURE_SSE2 => w.sse2_hidden(),
-            _ => false,
-        },
+    let w = match world() {
+        None => return false,
+        Some(w) => w,
+    };
+    let hidden = match feature {
+        FEATURE_AVX2 => w.avx2_hidden() || w.sse2_hidden(),
+        FEATURE_SSE2 => w.sse2_hidden(),
+        _ => false,
+    };
+    if w.mode != RtMode::Inline {
+        suspended(|| {
+            let tid = with_ctx(|c| c.tid).unwrap_or(99);
+            {
+                let mut t = w.trace.lock().unwrap();
+                t.u8(tid as u8);
+                t.u8(SITE_CPU as u8);
+                t.u8(feature as u8);
+            }
+            w.stats.lock().unwrap().seam_events += 1;
+            match w.mode {
+                RtMode::Shuttle => {
+                    let me = cur_ctx();
+                    crate::rt::yield_now();
+                    set_ctx(me);
+                }
+                RtMode::Os => std::thread::yield_now(),
+                RtMode::Inline => {}
+            }
+        });
     }
+    hidden
 }
 
 pub fn hook_stale(slot: usize, loaded: *mut (), initial: *mut ()) -> *mut () {
